@@ -169,6 +169,20 @@ def extract(repo):
     params = re.search(r"void\s+loadInstIFFreferent\s*\(([^)]*)\)", rh).group(1)
     fresh_aggr = not re.search(r"iAstruct\s+\w+", params)     # a by-value iAstruct parameter is a stale copy
 
+    # --- superInvAttrIter: which supertype is scanned after moving on
+    sia = _strip_comments(rd("src/clstepcore/superInvAttrIter.h"))
+    nx = _body(sia, r"const\s+Inverse_attribute\s*\*\s*next\s*\(\s*\)\s*\{")
+    if re.search(r"sit\.next\(\);\s*invIter->ResetItr\(\s*&\(\s*sit\.current\(\)->InverseAttr\(\)", nx):
+        iter_adv = True
+    elif re.search(r"ResetItr\(\s*&\(\s*sit\.next\(\)->InverseAttr\(\)", nx):
+        iter_adv = False
+    else:
+        raise ValueError("superInvAttrIter::next: shape not recognised")
+    ssi = _strip_comments(rd("include/clstepcore/SubSuperIterators.h"))
+    nb = _body(ssi, r"const\s+EntityDescriptor\s*\*\s*next\s*\(\s*\)\s*\{")
+    if not re.search(r"q\.pop_front\(\s*\);\s*addLinkedList\(\s*qp\s*\);\s*return\s+qp\.ed", nb):
+        raise ValueError("recursiveEntDescripIterator::next: FIFO pop / push-children / return-popped shape not recognised")
+
     out = ["-- GENERATED by tools/extract.d/lazy.py from src/cllazyfile/*.cc, lazyRefs.h, include/cllazyfile/*.h",
            "namespace StepModel.Generated", "",
            "/-- delimiters `nextInstance` accepts after the entity keyword -/",
@@ -193,6 +207,8 @@ def extract(repo):
            f"def refsAttrByDescriptor : Bool := {'true' if by_desc else 'false'}",
            "/-- lazyRefs: the aggregate already stored is re-read for every referrer (not a stale by-value copy) -/",
            f"def refsAggrAccumulates : Bool := {'true' if fresh_aggr else 'false'}",
+           "/-- superInvAttrIter::next scans the supertype it arrives at (not the one supertypesIterator::next() leaves) -/",
+           f"def superIterAdvances : Bool := {'true' if iter_adv else 'false'}",
            "/-- loadInstance: inverse attributes are resolved only when no instance is half-read -/",
            f"def refsDeferred : Bool := {'true' if deferred else 'false'}",
            "", "end StepModel.Generated", ""]
